@@ -414,6 +414,34 @@ pub fn plan(rng: &mut StdRng, profile: &str, threads: usize, total: usize) -> Ve
     out
 }
 
+/// barrier that releases all waiters at (nearly) the same instant: they spin instead of sleeping on a condvar
+pub struct SpinBarrier {
+    n: usize,
+    count: std::sync::atomic::AtomicUsize,
+    generation: std::sync::atomic::AtomicUsize,
+}
+impl SpinBarrier {
+    pub fn new(n: usize) -> Self {
+        SpinBarrier { n, count: Default::default(), generation: Default::default() }
+    }
+    pub fn wait(&self) {
+        let g = self.generation.load(Ordering::SeqCst);
+        if self.count.fetch_add(1, Ordering::SeqCst) + 1 == self.n {
+            self.count.store(0, Ordering::SeqCst);
+            self.generation.fetch_add(1, Ordering::SeqCst);
+        } else {
+            let mut spins = 0u64;
+            while self.generation.load(Ordering::SeqCst) == g {
+                std::hint::spin_loop();
+                spins += 1;
+                if spins % 50_000 == 0 {
+                    std::thread::yield_now();
+                }
+            }
+        }
+    }
+}
+
 pub enum Outcome {
     Done(Vec<Value>),
     Hang(Vec<Value>),
@@ -435,7 +463,7 @@ pub fn run_history<S: Store>(st: Arc<S>, backend: &str, plans: Vec<Vec<Op>>, yie
     let n = plans.len();
     let stamp = Arc::new(AtomicU64::new(0));
     let start = Arc::new(Barrier::new(n));
-    let round = Arc::new(Barrier::new(n));
+    let round = Arc::new(SpinBarrier::new(n));
     let syncs: Vec<usize> = plans.iter().map(|p| p.iter().filter(|o| o.sync).count()).collect();
     let uniform_sync = syncs.iter().all(|s| *s == syncs[0]);
     let (tx, rx) = mpsc::channel::<(usize, Vec<(u64, Value)>)>();
@@ -447,11 +475,11 @@ pub fn run_history<S: Store>(st: Arc<S>, backend: &str, plans: Vec<Vec<Op>>, yie
             let mut log: Vec<(u64, Value)> = vec![];
             start.wait();
             for (i, o) in ops.iter().enumerate() {
-                if o.sync && uniform_sync {
-                    round.wait();
-                }
                 for _ in 0..ys.get(i).copied().unwrap_or(0) {
                     std::thread::yield_now();
+                }
+                if o.sync && uniform_sync {
+                    round.wait();
                 }
                 let s1 = stamp.fetch_add(1, Ordering::SeqCst);
                 let r = catch_unwind(AssertUnwindSafe(|| exec(&*st, o, pk)));
@@ -592,7 +620,10 @@ pub fn run(cfg: &LinCfg) -> (Vec<Value>, bool) {
         let backend = backends[i % backends.len()];
         let profile = cfg.profiles[(i / backends.len()) % cfg.profiles.len()].clone();
         let mut nt = thread_choices[rng.gen_range(0..thread_choices.len())].min(cfg.max_threads);
-        if profile == "nid" || profile == "snap" {
+        if profile == "nid" {
+            nt = 2 + (i / 2) % 2; // 2 or 3 threads: one (or two) per contended group
+        }
+        if profile == "snap" {
             nt = nt.min(4).max(2);
         }
         let plans = plan(&mut rng, &profile, nt, cfg.total_ops);
